@@ -256,9 +256,7 @@ func verifH_C14_methods() {
 	verifAssert(cls&^allowed == 0, "C14: error class not documented for this method")
 	verifAssert(!(IsDeny(err) && IsEnd(err)), "C14: IsDeny and IsEnd both true")
 	if method != 5 && cls&(verifClsClosed|verifClsDown|verifClsMax|verifClsCanceled|verifClsDeny) != 0 && cls&(verifClsSubmit|verifClsBreak|verifClsAbandoned) == 0 {
-		if !(cls&verifClsClosed != 0 && response == 3) {
-			verifAssert(wire == 0, "C14: error class promises 'not submitted' but bytes of the request were written")
-		}
+		verifAssert(wire == 0, "C14: error class promises 'not submitted' but bytes of the request were written")
 		verifReach("not-submitted")
 	}
 	if method == 5 && cls&(verifClsClosed|verifClsDown|verifClsCanceled) != 0 {
